@@ -1,17 +1,20 @@
 (* Props/C12.v — property theorems for C12 (compaction preserves content; deleted keys stay
-   deleted) only; each closed by `exact` of a lemma proved in CompactionProofs.v, with
+   deleted) only; each closed by `exact` of a lemma proved in Compaction*.v, with
    Print Assumptions beneath.
 
-   The faithful model of the pinned code REFUTES the property as stated (statements kept as
-   Definitions in CompactionProofs.v: C12_merge_statement, C12_tombstone_safe_statement,
-   C12_reopen_statement). Proved here: what the executor computes (the FIRST source wins),
-   that outputs/all reachable files are sorted without duplicates (full strength), content
-   preservation under the explicit guard (C12_merge_partial), the parts of the deletion and
-   reopen clauses that do hold, and one witness per defect class (…_refuted). *)
-From KV Require Import Compaction CompactionProofs.
+   The model (Compaction.v) describes the REPAIRED code (/repo deebfc9, cf3362d, ca9115b,
+   390f6e5, f30cabd). WF = well-formed directory (files strictly ascending and non-empty,
+   distinct creation stamps below the clock, levels >= 1 key-disjoint), established for every
+   reachable state by C12_reachable_wf. [selected] = any task SelectCompaction (L0->L1,
+   promotion, size ratio) or CompactRange can return. [dread dir k] = what a database opened
+   on the directory alone reads for k.
+   The behaviour before the fixes and the witnesses that refuted the property then are kept in
+   CompactionBefore.v / CompactionBeforeProofs.v (last section of this file). *)
+From KV Require Import Compaction CompactionProofs CompactionMerge CompactionReach CompactionReopen.
+From KV Require CompactionBefore CompactionBeforeProofs.
 Open Scope N_scope.
 
-(* --- what CompactFiles computes, for every list of ascending input tables --- *)
+(* --- what CompactFiles computes --- *)
 Theorem C12_exec_first_source_wins : forall keep max srcs k, Forall asc srcs ->
   first_hit k (exec_outputs keep max srcs) =
   match first_hit k srcs with
@@ -21,72 +24,56 @@ Theorem C12_exec_first_source_wins : forall keep max srcs k, Forall asc srcs ->
 Proof. exact exec_outputs_lookup. Qed.
 Print Assumptions C12_exec_first_source_wins.
 
-(* --- outputs sorted, no duplicate keys, also across the split outputs; for every task taken
-       from a directory of ascending files (in particular every task a strategy selects) --- *)
-Theorem C12_outputs_sorted : forall keep k clock sizes t dir,
-  Forall dfile_ok dir -> incl (t_inputs t) dir ->
-  let outs := task_outputs keep k clock sizes t in
-  asc (concat (map d_entries outs)) /\
-  Forall dfile_ok outs /\
-  (1 <= cc_sstmax k -> Forall (fun f => chunk_ok (cc_sstmax k) (d_entries f)) outs) /\
-  Forall (fun f => d_level f = t_target t) outs.
-Proof. exact task_outputs_sorted. Qed.
+(* --- C12_merge: every task the strategies select preserves what every key reads as --- *)
+Theorem C12_merge : forall dir c maxmem k t keep z key,
+  WF dir c -> selected maxmem k dir t ->
+  dread (apply_task keep k c z t dir) key = dread dir key.
+Proof. exact merge_preserves. Qed.
+Print Assumptions C12_merge.
+
+(* ... in every reachable state, for the compaction cycle and for the range compaction *)
+Theorem C12_merge_reachable : forall c k ops z lo hi key, prog_ok k ops ->
+  let s := crun c k ops in
+  disk_read (ctrigger s z) key = disk_read s key /\ disk_read (crange s lo hi z) key = disk_read s key.
+Proof. exact merge_system. Qed.
+Print Assumptions C12_merge_reachable.
+
+(* --- outputs sorted, no duplicates (also across the split outputs), bounded; the directory
+       stays well-formed --- *)
+Theorem C12_outputs_sorted : forall keep max srcs, Forall asc srcs ->
+  asc (concat (exec_outputs keep max srcs)) /\
+  (1 <= max -> Forall (chunk_ok max) (exec_outputs keep max srcs)).
+Proof. intros. split. apply exec_outputs_sorted; auto. intro. apply exec_outputs_chunks; auto. Qed.
 Print Assumptions C12_outputs_sorted.
 
-Theorem C12_selected_tasks_from_directory : forall maxmem k lo hi dir t,
-  select maxmem k dir = Some t \/ select_range lo hi dir = Some t -> incl (t_inputs t) dir.
-Proof. intros maxmem k lo hi dir t [H|H]. exact (select_incl _ _ _ _ H). exact (select_range_incl _ _ _ _ H). Qed.
-Print Assumptions C12_selected_tasks_from_directory.
+Theorem C12_task_keeps_wf : forall dir c maxmem k t keep z,
+  WF dir c -> selected maxmem k dir t -> 1 <= cc_sstmax k ->
+  WF (apply_task keep k c z t dir) (c + N.of_nat (length (task_outputs keep k c z t))).
+Proof. exact task_keeps_wf. Qed.
+Print Assumptions C12_task_keeps_wf.
 
-(* every file of every reachable directory: any workload, flushes, automatic/triggered/range
-   compactions, restarts with and without log retirement *)
-Theorem C12_files_sorted_reachable : forall c k ops,
-  Forall (fun f => asc (d_entries f)) (disk (crun c k ops)).
-Proof. intros. exact (co_disk _ (reachable_files_sorted c k ops)). Qed.
-Print Assumptions C12_files_sorted_reachable.
+Theorem C12_reachable_wf : forall c k ops, prog_ok k ops ->
+  WF (disk (crun c k ops)) (clock (eng (crun c k ops))).
+Proof. intros c k ops A. exact (c2_wf _ (reachable_wf c k ops A)). Qed.
+Print Assumptions C12_reachable_wf.
 
-(* --- content preservation, under the guard the pinned code does not meet --- *)
-Theorem C12_merge_partial : forall keep max k (prec prec' ins A B : list (list sentry)),
-  Forall asc ins ->
-  filter (has k) prec = A ++ filter (has k) ins ++ B ->
-  filter (has k) prec' = A ++ filter (has k) (exec_outputs keep max ins) ++ B ->
-  (forall e, first_hit k ins = Some e -> keptf keep e = false -> read B k = None) ->
-  read prec' k = read prec k.
-Proof. exact view_preserved. Qed.
-Print Assumptions C12_merge_partial.
+(* --- C12_tombstone_safe: a deletion marker that wins the merge is kept whenever a table
+       outside the inputs on the target level or deeper holds the key; the other tables holding
+       the key are newer than every input holding it --- *)
+Theorem C12_tombstone_safe : forall dir c maxmem k t keep key e g,
+  WF dir c -> selected maxmem k dir t ->
+  first_hit key (task_sources t) = Some e -> is_tomb e = true ->
+  In g dir -> ~ In g (t_inputs t) -> dholds key g ->
+  (t_target t <= d_level g -> task_keep keep t key = true) /\
+  (d_level g < t_target t -> forall i, In i (t_inputs t) -> dholds key i -> dnewer g i).
+Proof. exact tombstone_safe. Qed.
+Print Assumptions C12_tombstone_safe.
 
-Theorem C12_merge_partial_single_input : forall keep max k (prec prec' ins A B : list (list sentry)) t,
-  Forall asc ins ->
-  filter (has k) ins = [t] ->
-  filter (has k) prec = A ++ [t] ++ B ->
-  filter (has k) prec' = A ++ filter (has k) (exec_outputs keep max ins) ++ B ->
-  (forall e, lookup k t = Some e -> keptf keep e = false -> read B k = None) ->
-  read prec' k = read prec k.
-Proof. exact view_preserved_single. Qed.
-Print Assumptions C12_merge_partial_single_input.
-
-(* witness: two level-0 files, same key, the strategy lists the OLDER first and it wins *)
-Theorem C12_merge_refuted :
-  exists t, select 2 cc_off two_l0_dir = Some t /\
-            t_inputs t = two_l0_dir /\
-            exec_outputs (fun _ => false) 1000000 (task_sources t) = [[mkS kx 0 (Some [1])]].
-Proof. exact merge_refuted. Qed.
-Print Assumptions C12_merge_refuted.
-
-Theorem C12_merge_statement_refuted : ~ C12_merge_statement.
-Proof. exact merge_statement_refuted. Qed.
-Print Assumptions C12_merge_statement_refuted.
-
-(* --- deletion markers --- *)
-Theorem C12_tombstone_tracked_partial : forall ops s k r s',
+Theorem C12_tombstone_tracked : forall ops s k r s',
   cdel s k = (s', r) -> is_ok r = true -> Forall no_reopen ops ->
   keep_of (tracked (fold_left cstep ops s')) k = true.
 Proof. exact tombstone_tracked. Qed.
-Print Assumptions C12_tombstone_tracked_partial.
-
-Theorem C12_tombstone_safe_refuted : ~ C12_tombstone_safe_statement.
-Proof. exact tombstone_safe_refuted. Qed.
-Print Assumptions C12_tombstone_safe_refuted.
+Print Assumptions C12_tombstone_tracked.
 
 (* --- reopen --- *)
 Theorem C12_live_reads_unaffected : forall s z lo hi k,
@@ -94,60 +81,27 @@ Theorem C12_live_reads_unaffected : forall s z lo hi k,
 Proof. exact live_reads_unaffected. Qed.
 Print Assumptions C12_live_reads_unaffected.
 
-Theorem C12_reopen_partial : forall s r k, cget (creopen (creopen s r) false) k = cget (creopen s r) k.
-Proof. exact reopen_stable. Qed.
-Print Assumptions C12_reopen_partial.
-
-Theorem C12_reopen_refuted : ~ C12_reopen_statement.
-Proof. exact reopen_refuted. Qed.
-Print Assumptions C12_reopen_refuted.
-
-(* one witness per known-finding class: the live database reads the latest write, the database
-   reopened on the files alone (flushed log files retired) does not *)
-Theorem C12_refuted_same_key_in_two_l0_inputs :
-  let s := crun cfg2 cc_off w_two_l0 in
-  lost_log (eng s) = false /\ cget s kx = Some [2] /\ cget (creopen (cfull s []) true) kx = Some [1].
-Proof. exact reopen_refuted_two_l0. Qed.
-Print Assumptions C12_refuted_same_key_in_two_l0_inputs.
-
-Theorem C12_refuted_tombstone_dropped_after_restart :
-  let s := crun cfg2 cc_off w_tomb_restart in
-  lost_log (eng s) = false /\ cget s kx = None /\ cget (creopen (cfull s []) true) kx = Some [1].
-Proof. exact reopen_refuted_tomb_restart. Qed.
-Print Assumptions C12_refuted_tombstone_dropped_after_restart.
-
-Theorem C12_refuted_tombstone_dropped_transaction :
-  let s := crun cfg2 cc_off w_tomb_tx in
-  lost_log (eng s) = false /\ cget s kx = None /\ cget (creopen (cfull s []) true) kx = Some [1].
-Proof. exact reopen_refuted_tomb_tx. Qed.
-Print Assumptions C12_refuted_tombstone_dropped_transaction.
-
-Theorem C12_refuted_deeper_level_outranks :
-  let s := crun cfg2 cc_off w_deeper in
-  lost_log (eng s) = false /\ cget s kx = Some [2] /\ cget (creopen (cfull s []) true) kx = Some [1].
-Proof. exact reopen_refuted_deeper. Qed.
-Print Assumptions C12_refuted_deeper_level_outranks.
-
-Theorem C12_refuted_file_numbers_restart :
-  let s := crun cfg8 cc_off w_numbers in
-  lost_log (eng s) = false /\ cget s kx = Some [3] /\ cget (creopen (cfull s []) true) kx = Some [2].
-Proof. exact reopen_refuted_numbers. Qed.
-Print Assumptions C12_refuted_file_numbers_restart.
-
-Theorem C12_refuted_shallower_input_older_than_deeper :
-  let s0 := crun cfg2 cc_off w_shallower in
-  let s := crange s0 kx kx [] in
-  map (fun f => (d_level f, d_entries f)) (dsort (disk s0)) =
-    [(0, [mkS ka 1 (Some [0]); mkS kx 2 (Some [1])]); (1, [mkS ka 0 (Some [0]); mkS kx 0 (Some [2])])] /\
-  map (fun f => (d_level f, d_entries f)) (disk s) = [(2, [mkS ka 0 (Some [0]); mkS kx 0 (Some [1])])] /\
-  lost_log (eng s) = false /\ cget s kx = Some [2] /\ cget (creopen s true) kx = Some [1].
-Proof. exact refuted_shallower_older. Qed.
-Print Assumptions C12_refuted_shallower_input_older_than_deeper.
-
-(* ties C12_merge_partial's abstract [read] to the model: with prec = the reverse file-name order
-   it is exactly what a database opened on the directory alone reads, in every reachable state *)
-Theorem C12_disk_read_is_read_in_name_order : forall c k ops key,
+(* the database reopened on the compacted files reads what it reads reopened on the files before
+   the compaction: log kept (r = false) or flushed log files retired (r = true) *)
+Theorem C12_reopen_ignores_compaction : forall c k ops z lo hi r key, prog_ok k ops ->
   let s := crun c k ops in
-  disk_read s key = read (map s_entries (rev (sst_sort (map d_sst (disk s))))) key.
-Proof. exact disk_read_as_read. Qed.
-Print Assumptions C12_disk_read_is_read_in_name_order.
+  cget (creopen (ctrigger s z) r) key = cget (creopen s r) key /\
+  cget (creopen (crange s lo hi z) r) key = cget (creopen s r) key.
+Proof. exact reopen_ignores_compaction. Qed.
+Print Assumptions C12_reopen_ignores_compaction.
+
+(* --- before the fixes: one witness per defect (model of the pinned code) --- *)
+Theorem C12_before_fixes_same_key_in_two_l0_inputs :
+  let s := CompactionBefore.crun CompactionBeforeProofs.cfg2 CompactionBeforeProofs.cc_off CompactionBeforeProofs.w_two_l0 in
+  lost_log (CompactionBefore.eng s) = false /\ CompactionBefore.cget s CompactionBeforeProofs.kx = Some [2] /\
+  CompactionBefore.cget (CompactionBefore.creopen (CompactionBefore.cfull s []) true) CompactionBeforeProofs.kx = Some [1].
+Proof. exact CompactionBeforeProofs.reopen_refuted_two_l0. Qed.
+Print Assumptions C12_before_fixes_same_key_in_two_l0_inputs.
+
+Theorem C12_before_fixes_tombstone_dropped : ~ CompactionBeforeProofs.C12_tombstone_safe_statement.
+Proof. exact CompactionBeforeProofs.tombstone_safe_refuted. Qed.
+Print Assumptions C12_before_fixes_tombstone_dropped.
+
+Theorem C12_before_fixes_reopen : ~ CompactionBeforeProofs.C12_reopen_statement.
+Proof. exact CompactionBeforeProofs.reopen_refuted. Qed.
+Print Assumptions C12_before_fixes_reopen.
